@@ -21,11 +21,17 @@ verus! {
 /// "p is a response datagram the network returned for read command c with length len"
 pub uninterp spec fn net_read(c: Reads, len: u16, p: ReceivedPdu) -> bool;
 pub uninterp spec fn net_write(c: Writes, data: Seq<u8>, len_override: Option<u16>, p: ReceivedPdu) -> bool;
+/// "this error was reported by the exchange itself (no frame slot, PDU timeout, malformed response frame)"
+pub uninterp spec fn net_failed(e: Error) -> bool;
+/// the working-counter error the property asks for: it carries the expected and the received count of a datagram that really came back
+pub open spec fn wkc_error_for(expected: Option<u16>, p: ReceivedPdu, e: Error) -> bool {
+    expected is Some && expected->Some_0 != p.wkc_v() && e == (Error::WorkingCounter { expected: expected->Some_0, received: p.wkc_v() })
+}
 
 impl WrappedRead {
     #[verifier::external_body]
     pub async fn common(&self, maindevice: &MainDevice, len: u16) -> (r: Result<ReceivedPdu, Error>)
-        ensures r is Ok ==> net_read(self.command, len, r->Ok_0)
+        ensures r is Ok ==> net_read(self.command, len, r->Ok_0), r is Err ==> net_failed(r->Err_0)
     { unimplemented!() }
 
 /*@fn file=src/command/reads.rs impl="impl WrappedRead" name=new props=C11
@@ -40,13 +46,20 @@ impl WrappedRead {
 /*@fn file=src/command/reads.rs impl="impl WrappedRead" name=receive_slice subst="<'maindevice>=>@@'maindevice=>'_" props=C11
     ensures
         r is Ok ==> net_read(self.command, len, r->Ok_0) && wkc_accepts(self.wkc, (r->Ok_0).wkc_v()),
+        // an error is the exchange's own, or THE working-counter error (expected and received counts) for a datagram that came
+        // back with a different count - in particular a datagram with the expected count is never turned into an error
+        r is Err ==> net_failed(r->Err_0) || exists|p: ReceivedPdu| #[trigger] net_read(self.command, len, p) && wkc_error_for(self.wkc, p, r->Err_0),
 @*/
 /*@fn file=src/command/reads.rs impl="impl WrappedRead" name=receive subst="<'maindevice, T>=><T>@@<'maindevice>=>@@'maindevice=>'_" props=C11
     ensures
         r is Ok ==> exists|p: ReceivedPdu| #[trigger] net_read(self.command, T::PACKED_LEN as u16, p)
             && wkc_accepts(self.wkc, p.wkc_v()) && T::unpack_spec(p.data()) == Ok::<T, WireError>(r->Ok_0),
+        // an error is the exchange's own, THE working-counter error for a datagram with another count, or a decode failure of a
+        // datagram with the right count: a well-formed answer with the expected count is never turned into an error
+        r is Err ==> net_failed(r->Err_0) || exists|p: ReceivedPdu| #[trigger] net_read(self.command, T::PACKED_LEN as u16, p)
+            && (wkc_error_for(self.wkc, p, r->Err_0) || (wkc_accepts(self.wkc, p.wkc_v()) && T::unpack_spec(p.data()) is Err)),
 @closure 0 "|data: ReceivedPdu| -> (cr: Result<T, Error>)"
-    ensures cr is Ok ==> T::unpack_spec(data.data()) == Ok::<T, WireError>(cr->Ok_0)
+    ensures cr is Ok ==> T::unpack_spec(data.data()) == Ok::<T, WireError>(cr->Ok_0), cr is Err ==> T::unpack_spec(data.data()) is Err
 @*/
 /*@fn file=src/command/reads.rs impl="impl WrappedRead" name=receive_wkc subst="<'maindevice, T>=><T>@@<'maindevice>=>@@'maindevice=>'_" props=C11
     ensures
@@ -59,7 +72,7 @@ impl WrappedRead {
 impl WrappedWrite {
     #[verifier::external_body]
     pub async fn common<V: EtherCrabWireWrite>(&self, maindevice: &MainDevice, value: V, len_override: Option<u16>) -> (r: Result<ReceivedPdu, Error>)
-        ensures r is Ok ==> net_write(self.command, value.packed(), len_override, r->Ok_0)
+        ensures r is Ok ==> net_write(self.command, value.packed(), len_override, r->Ok_0), r is Err ==> net_failed(r->Err_0)
     { unimplemented!() }
 
 /*@fn file=src/command/writes.rs impl="impl WrappedWrite" name=new props=C11
@@ -78,13 +91,16 @@ impl WrappedWrite {
 /*@fn file=src/command/writes.rs impl="impl WrappedWrite" name=send_receive_slice subst="<'maindevice>=>@@'maindevice=>'_" props=C11
     ensures
         r is Ok ==> net_write(self.command, value.packed(), None, r->Ok_0) && wkc_accepts(self.wkc, (r->Ok_0).wkc_v()),
+        r is Err ==> net_failed(r->Err_0) || exists|p: ReceivedPdu| #[trigger] net_write(self.command, value.packed(), None, p) && wkc_error_for(self.wkc, p, r->Err_0),
 @*/
 /*@fn file=src/command/writes.rs impl="impl WrappedWrite" name=send_receive subst="<'maindevice, T>=><T>@@<'maindevice>=>@@'maindevice=>'_" props=C11
     ensures
         r is Ok ==> exists|p: ReceivedPdu| #[trigger] net_write(self.command, value.packed(), None, p)
             && wkc_accepts(self.wkc, p.wkc_v()) && T::unpack_spec(p.data()) == Ok::<T, WireError>(r->Ok_0),
+        r is Err ==> net_failed(r->Err_0) || exists|p: ReceivedPdu| #[trigger] net_write(self.command, value.packed(), None, p)
+            && (wkc_error_for(self.wkc, p, r->Err_0) || (wkc_accepts(self.wkc, p.wkc_v()) && T::unpack_spec(p.data()) is Err)),
 @closure 0 "|data: ReceivedPdu| -> (cr: Result<T, Error>)"
-    ensures cr is Ok ==> T::unpack_spec(data.data()) == Ok::<T, WireError>(cr->Ok_0)
+    ensures cr is Ok ==> T::unpack_spec(data.data()) == Ok::<T, WireError>(cr->Ok_0), cr is Err ==> T::unpack_spec(data.data()) is Err
 @*/
 }
 
